@@ -1,7 +1,7 @@
 (* C14 judged on implementation traces: shared contexts fan every event out to the holders at
    evaluation time with identical payload; exclusive events go to the owning entity only. *)
 From BEI Require Export Check.App.
-From BEI Require Import Spec.Events.
+From BEI Require Import Spec.Events Spec.ReadSpec.
 Open Scope Z_scope.
 
 Definition got_of (c e : Z) (o : out) : bool :=
@@ -34,10 +34,27 @@ Definition judge_frame (sc : scenario) (before o : out) : list (Z * bool) :=
               end) acts)) hs))
     (s_menu sc)).
 
+(* per-entity instances with different gamepads are independent: every probed binding of an exclusive instance
+   reads its own device (the probe is the binding's first modifier); non-consuming profile *)
+Definition judge_reads (sc : scenario) (f : frame_in) (before o : out) : list (Z * bool) :=
+  flat_map (fun x =>
+    let '(c, e, spec) := x in
+    if negb (ctx_shared c) && got_of c e before then
+      flat_map (fun ab => flat_map (fun ib =>
+        match ib_mods ib with
+        | (id, MScript []) :: _ =>
+            match find_mod id (x_log o) with
+            | Some (vin, _, _) => [(4, veqb vin (spec_read (f_raw f) (ui_any (f_raw f)) (i_pad spec) (ib_input ib)))]
+            | None => []
+            end
+        | _ => []
+        end) (ab_inputs ab)) (merged_actions spec)
+    else []) (s_cfg sc).
+
 Fixpoint judge_steps (sc : scenario) (before : out) (steps : list step) (outs : list out) : list (Z * bool) :=
   match steps, outs with
   | SFrame f :: steps', o :: outs' =>
-      (8, negb (x_panicked o)) :: (match f_ops f with [] => judge_frame sc before o | _ => [] end) ++ judge_steps sc o steps' outs'
+      (8, negb (x_panicked o)) :: (match f_ops f with [] => judge_frame sc before o | _ => [] end) ++ judge_reads sc f before o ++ judge_steps sc o steps' outs'
   | SOp _ :: steps', o :: outs' => (8, negb (x_panicked o)) :: judge_steps sc o steps' outs'
   | [], [] => []
   | _, _ => [(9, false)]
